@@ -502,7 +502,7 @@ def check(ctx, replay=None):
     res = core.Result()
     if not getattr(ctx, "skip_proof", False):
         ctx.prove(["Extract_C01.vo"])
-    drvs = ctx.build_many([("c01_drv.cpp", "o%d" % k, ["-DOPTSET=%d" % k]) for k in sorted(OPTSETS)])
+    drvs = ctx.build_many([("c01_drv.cpp", "o%d" % k, ["-DOPTSET=%d" % k] + core.release_flags("c01o%d" % k)) for k in sorted(OPTSETS)])
     drvs = {k: drvs["o%d" % k] for k in sorted(OPTSETS)}
     orc = ctx.build_oracle("c01")
     if replay:
